@@ -266,7 +266,8 @@ func init() {
 		o.Forced(fn, "sinceq-forced", "silences newer than the cached version must be evaluated", IsInstr(sinceQ), VE.Neg())
 		q1, q2 := e.X(fn, idsQ.(*ssa.Call)), e.X(fn, sinceQ.(*ssa.Call))
 		total0 := LitM{"no active/pending silence found", func(l Lit) bool {
-			return l.Pos && strings.HasPrefix(l.Atom, "((len(") && strings.HasSuffix(l.Atom, " == 0)") && strings.Contains(l.Atom, q1+"#0") && strings.Contains(l.Atom, q2+"#0")
+			// (a sum of lengths is zero iff it is below one)
+			return l.Pos && strings.HasPrefix(l.Atom, "((len(") && (strings.HasSuffix(l.Atom, " == 0)") || strings.HasSuffix(l.Atom, " < 1)")) && strings.Contains(l.Atom, q1+"#0") && strings.Contains(l.Atom, q2+"#0")
 		}}
 		// verdict: "at least one active silence id" — returned as that comparison, or as true / false under it
 		var active ssa.Value
@@ -717,13 +718,32 @@ func init() {
 		})
 		// QMatches
 		qm := o.Fn("am/silence.QMatches$1$1")
-		g := o.One(e.Calls(qm, "(am/silence.matcherIndex).get"), "qmatches-get", "QMatches must use the compiled matchers of the silence", qm)
-		o.Check(e.Arg(g, 0) == "p1.mi" && e.Arg(g, 1) == "p0", "qmatches-get-args", "QMatches must look up the silence under evaluation in the store's matcher index", g)
+		// (the index lookup is read in place: matcherIndex.get is transparent)
 		mm := o.One(e.Calls(qm, "(am/pkg/labels.MatcherSet).Matches"), "qmatches-matches", "QMatches must evaluate MatcherSet.Matches", qm)
 		o.Site(mm, "MatcherSet.Matches")
-		o.Check(e.Arg(mm, 0) == e.X(qm, g.(*ssa.Call))+"#0" && e.Arg(mm, 1) == "^^p0", "qmatches-args", "QMatches must match the compiled set against the query's label set", mm)
-		for _, ret := range (&Walk{Fn: qm, Cut: e.CutContradicting(LRe(`\(.*matcherIndex\)\.get\(p1\.mi, p0\)#1 == nil\)`, true))}).FromEntry().Returns() {
-			o.Check(e.X(qm, ret.Results[0]) == e.X(qm, mm.(*ssa.Call)), "qmatches-result", "QMatches must return the match result unchanged", ret)
+		const compiled = "p1.mi[p0.Id]"
+		known := L(compiled+"#1", true)
+		o.Check(e.CountLitEdges(qm, known)+e.CountLitEdges(qm, known.Neg()) > 0, "qmatches-get", "QMatches must use the compiled matchers of the silence: it no longer tests whether the silence is indexed", mm)
+		{
+			r := (&Walk{Fn: qm, Cut: e.CutContradicting(known)}).FromEntry()
+			o.Check(r.Has(mm), "qmatches-get", "an indexed silence is not evaluated", mm)
+			for _, v := range e.ValStrs(qm, e.ValsAt(r, mm, mm.Common().Args[0])) {
+				o.Check(v == compiled+"#0", "qmatches-args", "QMatches must match the silence's compiled matchers from the store's index, matches "+clip(v), mm)
+			}
+			o.Check(e.Arg(mm, 1) == "^^p0", "qmatches-args", "QMatches must match against the query's label set, matches against "+e.Arg(mm, 1), mm)
+			for _, ret := range r.Returns() {
+				for _, v := range e.ValStrs(qm, e.RetVals(r, ret, 0)) {
+					o.Check(v == e.X(qm, mm.(*ssa.Call)), "qmatches-result", "QMatches must return the match result unchanged, returns "+clip(v), ret)
+				}
+			}
+		}
+		{
+			r := (&Walk{Fn: qm, Cut: e.CutContradicting(known.Neg())}).FromEntry()
+			for _, ret := range r.Returns() {
+				for _, v := range e.ValStrs(qm, e.RetVals(r, ret, 1)) {
+					o.Check(v != "nil", "qmatches-unindexed", "a silence without compiled matchers must be an error of the query, not a verdict", ret)
+				}
+			}
 		}
 		// matcherIndex.add
 		matcherIndexAddRule(o)
